@@ -247,41 +247,62 @@ def preprocess (s : St L) (p : ModPath) : Except Err Unit × St L :=
           (.ok (), { s3 with stored := s3.stored ++ [(p, tableOf s3.db p)] })
         else (.ok (), s3)
 
-/-- `Modules.load(p)` (modules.py:58-78); `rec` loads a list of modules (the libraries, the imports).
-    The state is returned in every case: what was registered before an exception stays registered. -/
-def loadOne (rec : List ModPath → St L → Except Err Unit × St L) (p : ModPath) (s : St L) : Except Err Unit × St L :=
-  if p ∈ s.mods then (.ok (), s) else                                        -- :72
-  match (if p ∈ E.libs then (.ok (), s) else rec E.libs s) with              -- :73, :88-89 libralies()
+/-- removal of one module: `ModuleLoader.unload` → `Entrypoints.unload`, `SymbolDB.unload`; `del __modules[m]`
+    (modules.py:134-136, providers/module.py:76-84, entrypoints.py:64-71, db.py:144-156) -/
+def unloadOne (s : St L) (m : ModPath) : St L :=
+  { s with eps := aerase s.eps m,
+           completed := s.completed.filter (fun x => x ≠ m),
+           db := s.db.filter (fun kv => modOf kv.1 ≠ m),
+           mods := s.mods.filter (fun x => x ≠ m) }
+
+/-- `Modules.__dependent_paths(m)` (modules.py:141-158): the registered modules that import `m`; every non-library module
+    when `m` is a library module -/
+def dependents (s : St L) (m : ModPath) : List ModPath :=
+  s.mods.filter (fun x =>
+    (match alookup s.eps x with | some ep => decide (m ∈ L.imports ep.tree) | none => false) ||
+    (decide (m ∈ E.libs) && !decide (x ∈ E.libs)))
+
+/-- `Modules.unload` (modules.py:127-139): the module, then recursively everything that depends on it.
+    Fuel = number of registered modules suffices (every level removes one); with less the cascade stops. -/
+def unloadF : Nat → St L → ModPath → St L
+  | 0, s, _ => s
+  | f + 1, s, m =>
+    if m ∈ s.mods then (dependents L E (unloadOne L s m) m).foldl (fun s d => unloadF f s d) (unloadOne L s m) else s
+
+def unload (s : St L) (m : ModPath) : St L := unloadF L E s.mods.length s m
+
+/-- `Modules.load(p)` (modules.py:59-93); `rec` loads a list of modules (the libraries, the imports), `rollback` is
+    `Modules.unload` with its cascade. A module whose imports or processors raise is unloaded again (:83-86), so nothing
+    half-loaded stays registered. (`except Exception → Errors.Fatal` (:89-91) changes the class of non-tranp exceptions only;
+    the model has none in this function except its own fuel exhaustion.) -/
+def loadOne (rec : List ModPath → St L → Except Err Unit × St L) (rollback : St L → ModPath → St L) (p : ModPath) (s : St L) :
+    Except Err Unit × St L :=
+  match (if p ∈ s.mods then (.ok (), s) else if p ∈ E.libs then (.ok (), s) else rec E.libs s) with   -- :74-75, :103-104 libralies()
   | (.error e, s0) => (.error e, s0)
   | (.ok _, s0) =>
-    match epLoad L E s0 p with                                               -- :74 loader.load → entrypoints.load
+    if p ∈ s0.mods then (.ok (), s0) else                                    -- :78 the library load may have loaded p itself
+    match epLoad L E s0 p with                                               -- :79 loader.load → entrypoints.load
     | (.error e, s1) => (.error e, s1)
     | (.ok _, s1) =>
-      let s2 : St L := { s1 with mods := addIfAbsent s1.mods p }             -- :74 registered before its imports
+      let s2 : St L := { s1 with mods := addIfAbsent s1.mods p }             -- :79 registered before its imports
       match alookup s2.eps p with
-      | none => (.error .other, s2)
+      | none => (.error .other, rollback s2 p)
       | some ep =>
-        match rec (L.imports ep.tree) s2 with                                -- :75
-        | (.error e, s3) => (.error e, s3)
-        | (.ok _, s3) => preprocess L E s3 p                                 -- :76
+        match rec (L.imports ep.tree) s2 with                                -- :81
+        | (.error e, s3) => (.error e, rollback s3 p)                        -- :83-86
+        | (.ok _, s3) =>
+          match preprocess L E s3 p with                                     -- :82
+          | (.error e, s4) => (.error e, rollback s4 p)                      -- :83-86
+          | (.ok _, s4) => (.ok (), s4)
 
 /-- `[Modules.load(p) for p in ps]`; every call and every list step consumes one unit of fuel (RecursionError when exhausted) -/
 def loadAll : Nat → List ModPath → St L → Except Err Unit × St L
   | _, [], s => (.ok (), s)
   | 0, _ :: _, s => (.error .recursion, s)
   | f + 1, p :: ps, s =>
-    match loadOne L E (loadAll f) p s with
+    match loadOne L E (loadAll f) (unload L E) p s with
     | (.error e, s') => (.error e, s')
     | (.ok _, s') => loadAll f ps s'
-
-/-- `Modules.unload` (modules.py:112-121) → `ModuleLoader.unload` → `Entrypoints.unload`, `SymbolDB.unload` -/
-def unload (s : St L) (m : ModPath) : St L :=
-  if m ∈ s.mods then
-    { s with eps := aerase s.eps m,
-             completed := s.completed.filter (fun x => x ≠ m),
-             db := s.db.filter (fun kv => modOf kv.1 ≠ m),
-             mods := s.mods.filter (fun x => x ≠ m) }
-  else s
 
 /-- `transpiler.transpile(modules.load(m).entrypoint)` (Runner.by_entrypoint, py2cpp.py:139-151, procedure.py:55-70).
     Both stacks get a fresh top frame; it is popped only when no exception passes through. -/
@@ -300,7 +321,7 @@ def transpile (f : Nat) (s : St L) (m : ModPath) : Except Err Text × St L :=
 
 /-- `Interactive.rebuild_module` + transpile (bin/transpile.py:419-443) -/
 def resubmit (f : Nat) (s : St L) (src : Src) : Except Err Text × St L :=
-  transpile L E f (unload L { s with mainSrc := src } E.main) E.main
+  transpile L E f (unload L E { s with mainSrc := src } E.main) E.main
 
 /-- one operation; `ok none` for operations without a text -/
 def step (f : Nat) (s : St L) : Op Src → Except Err (Option Text) × St L
@@ -310,7 +331,7 @@ def step (f : Nat) (s : St L) : Op Src → Except Err (Option Text) × St L
   | .transpile m => match transpile L E f s m with
     | (.ok t, s') => (.ok (some t), s')
     | (.error e, s') => (.error e, s')
-  | .unload m => (.ok none, unload L s m)
+  | .unload m => (.ok none, unload L E s m)
   | .resubmit src => match resubmit L E f s src with
     | (.ok t, s') => (.ok (some t), s')
     | (.error e, s') => (.error e, s')
@@ -337,7 +358,7 @@ end Machine
       from M import N            (for every entry of `imports`; an empty N is a bare dependency edge, used for the library stubs)
       class C:                   (for every entry of `classes`)
           def f(self, x: int) -> int:      (for every method; body `return x`, or `b = B(); return b.g(x)` for a `call`,
-                                            or `return undefined_name` for `badName`)
+                                            or `return undefined_name` for `badName`, or a lambda capturing four locals for `lam`)
       v: int = 0 / v: Nope = 0   (for every entry of `vars`; `false` = the annotation does not resolve)
 
   `descLang` says which symbol keys ExpandModules inserts for such a module (calibrated against the real code by the
@@ -347,6 +368,8 @@ structure Method where
   name : Str
   call : Option (ModPath × Str × Str) := none
   badName : Bool := false
+  /-- body `y = x; z = x; w = x; f = lambda: y + z + w + x; return f()` (a lambda capturing four names) -/
+  lam : Bool := false
 deriving DecidableEq, Repr
 
 structure Cls where
@@ -391,7 +414,9 @@ def expandImports (look : Key → Option Str) : List (ModPath × Str) → List (
 def Desc.fnVarRows (d : Desc) : List (Str × Str) :=
   d.classes.flatMap (fun c => c.methods.flatMap (fun m =>
     [(dot (dot c.name m.name) ['s','e','l','f'], ['v']), (dot (dot c.name m.name) ['x'], ['v'])]
-    ++ (match m.call with | some _ => [(dot (dot c.name m.name) ['b'], ['v'])] | none => [])))
+    ++ (match m.call with | some _ => [(dot (dot c.name m.name) ['b'], ['v'])] | none => [])
+    ++ (if m.lam then [(dot (dot c.name m.name) ['y'], ['v']), (dot (dot c.name m.name) ['z'], ['v']),
+          (dot (dot c.name m.name) ['w'], ['v']), (dot (dot c.name m.name) ['f'], ['v'])] else [])))
 
 /-- decl_vars of the entrypoint, in source order; an unresolvable annotation raises SymbolNotDefined (expand_modules.py:126-147) -/
 def expandVars : List (Str × Bool) → List (Str × Str) → List (Str × Str) × Option Err
